@@ -11,10 +11,12 @@ Theorem C17_idempotent : forall e s items,
   Forall (entry_matches e s) items ->
   populate_apply e s items [] = (mkResp status_created (PPopulate (flat_map (existing s) items)), s).
 Proof. exact populate_idempotent. Qed.
+Print Assumptions C17_idempotent.
 
 Theorem C17_idempotent_repeated : forall e s items n,
   Forall (entry_matches e s) items -> repeat_populate e s items n = s.
 Proof. exact populate_repeated. Qed.
+Print Assumptions C17_idempotent_repeated.
 
 (** an entry that differs in listen address or upstream replaces the proxy: the old one is stopped
     before the new one binds, and the new one has no toxics *)
@@ -28,12 +30,14 @@ Theorem C17_replace : forall e s i old a fresh',
   (mkResp status_created (PPopulate [fresh']), replace_proxy (replace_proxy s (stop_proxy old)) fresh') /\
   p_up fresh' = [] /\ p_down fresh' = [] /\ p_enabled fresh' = true.
 Proof. exact populate_replaces. Qed.
+Print Assumptions C17_replace.
 
 (** after a successful reset every proxy is enabled and has no toxics in either direction *)
 Theorem C17_reset : forall e s resp s',
   reset_all e s s = (resp, s') -> status resp = status_no_content ->
   forall n p, In n (map p_name s) -> find_proxy s' n = Some p -> clean p.
 Proof. exact reset_cleans. Qed.
+Print Assumptions C17_reset.
 
 (** finding F10 (known): matching as the property means it - same socket address - is not what
     the code compares for the :port spelling (and for proxies that were never started): repeating
@@ -45,3 +49,4 @@ Theorem C17_match_is_spelling_independent_refuted :
   (exists p, find_proxy s2 "a" = Some p /\ length (p_down p) = 1%nat) /\
   (exists p, find_proxy s3 "a" = Some p /\ p_down p = []).
 Proof. exact populate_port_spelling_refuted. Qed.
+Print Assumptions C17_match_is_spelling_independent_refuted.
